@@ -20,7 +20,7 @@ var ordComps = []string{"<", "<=", ">", ">=", "=", "!="}
 var eqComps = []string{"=", "!="}
 
 // simple like patterns: C18 goes deep, C02 only needs the comparator to take part
-var likePatterns = []string{"a", "a%", "%a", "%a%", "%", "", "ab", "%b%", "A%", "%B", "a.*", "^a", "[ab]%", "%b$"}
+var likePatterns = []string{"a", "a%", "%a", "%a%", "%", "", "ab", "%b%", "A%", "%B", "a.*", "^a", "[ab]%", "%b$", "%%a%", "a%%", "%%", "%%b", "b%%%"}
 
 func colsOfKind(t Table, kinds ...Kind) []Col {
 	var r []Col
